@@ -267,7 +267,7 @@ def conds(tier):
     q = tier == "quick"
     cs = []
     shapes = [(1, 1), (2, 1), (1, 2), (2, 2), (3, 2), (2, 3), (3, 3)] if q else \
-        [(1, 1), (2, 1), (1, 2), (2, 2), (3, 2), (2, 3), (3, 3), (4, 3), (2, 4), (3, 4)]
+        [(1, 1), (2, 1), (1, 2), (2, 2), (3, 2), (2, 3), (3, 3), (2, 4), (3, 4)]
     for (m, n) in shapes:
         big = m * n >= 9
         cs.append(Cond("structure-m%d-n%d" % (m, n), "harness.c02:structure",
@@ -277,7 +277,7 @@ def conds(tier):
                        timeout=400 if q else 2400, functions=FUNCS))
     cs.append(Cond("fields", "harness.c02:fields",
                    [P("f", "int", 0, 5), P("shape", "int", 0, 2), P("four", "bool"), P("w", "int", 0, len(WORDS)),
-                    P("lem", "int", 0, 3), P("mor", "int", 0, 3), P("edg", "int", 0, 3 if q else 4), P("cedg", "int", 1 if q else 0, 2 if q else 4),
+                    P("lem", "int", 0, 3), P("mor", "int", 0, 3), P("edg", "int", 0, 3 if q else 4), P("cedg", "int", 1 if q else 0, 2 if q else 3),
                     P("wpos", "bool"), P("one", "bool")],
                    pre=["(f == 0 or not four) and (f == 4 or not (wpos or one))"],
                    shard=["f", "shape", "lem"], timeout=600 if q else 2400, functions=FUNCS))
@@ -286,7 +286,7 @@ def conds(tier):
                     P("bm", "bool"), P("bn", "bool"), P("er", "bool"), P("ex", "int", 0, 4), P("et", "int", 0, 4),
                     P("hx", "bool"), P("ht", "bool"), P("sx", "bool"), P("st", "bool"), P("blk", "int", 1, 3),
                     P("rl", "int", 0, 2), P("xl", "int", 0, 2)],
-                   pre=["(f != 0 or not er)", "rl == xl or er"] + (["si < 2 and et == ex and blk == 1 and hx == ht and sx == st and ((rl == 0 and xl == 0) or (er and not (gf or mh or bm or bn or hx or sx)))"] if q else ["hx == ht and (bn or blk == 1) and si < 2 and ex > 0 and et > 0 and ((rl == 0 and xl == 0) or (er and not (mh or bm or bn)))"]),
+                   pre=["(f != 0 or not er)", "rl == xl or er"] + (["si < 2 and et == ex and blk == 1 and hx == ht and sx == st and ((rl == 0 and xl == 0) or (er and not (gf or mh or bm or bn or hx or sx)))"] if q else ["hx == ht and (bn or blk == 1) and si < 1 + (1 if gf else 0) and ex > 0 and et > 0 and ((rl == 0 and xl == 0) or (er and not (mh or bm or bn)))"]),
                    shard=["f", "gf", "gft", "mh"] + ([] if q else ["bm", "bn"]), timeout=600 if q else 2400, functions=FUNCS))
     for (m, n) in ([(2, 2), (3, 3)] if q else [(2, 2), (3, 3), (3, 4)]):
         cs.append(Cond("pair-m%d-n%d" % (m, n), "harness.c02:pair", e1_params(m, n) + [P("f", "int", 0, 5), P("four", "bool")],
